@@ -10,7 +10,7 @@ use crate::rec::*;
 use crate::scen::*;
 use ndarray::{ArrayD, IxDyn};
 
-fn new_custom(min: usize, fail_build: bool, fail_at: Option<usize>) -> CustomCfg {
+pub fn new_custom(min: usize, fail_build: bool, fail_at: Option<usize>) -> CustomCfg {
     CustomCfg { min, fail_build, fail_at, shared: RecShared::default() }
 }
 
